@@ -22,7 +22,12 @@ def run(tier, seed):
     rnd.shuffle(cs)
     reps = 1
     if tier == "quick":
-        cs = cs[:420]
+        # stratified: every (routine, scalar, pattern) once in a rotated basis (complex entries, non-trivial vectors) and once in
+        # another basis, sizes at random
+        strata = {}
+        for c in cs:
+            strata.setdefault((c["routine"], c["scalar"], c["pattern"], c["basis"] == "rot"), []).append(c)
+        cs = [v[0] for k, v in sorted(strata.items())]
     else:
         reps = 8
     exe = build.driver_build("d_linalg")
